@@ -16,7 +16,8 @@ Inductive opk := OBegin | OPrepIns | OIns | OPrepSel | OSel | OPrepUpd | OUpd | 
 
 Inductive pcT :=
 | PcBegin | PcPrepIns (s : status) | PcIns (s : status) | PcPrepSel | PcSel
-| PcPrepUpd (s : status) | PcUpd (s : status) | PcBiz | PcCommit | PcRollback | PcDone.
+| PcPrepUpd (s : status) | PcUpd (s : status) | PcBiz | PcCommit | PcRollback | PcDone
+| PcBeginB | PcCommitB.     (* proxy-driver mode only: the second (fence) transaction *)
 
 Definition status_eqb (a b : status) : bool :=
   match a, b with
@@ -127,24 +128,41 @@ Definition commit_tx (t : thread) (sh : shared) : shared :=
       (s_owner sh).
 
 (* what CommitFence / RollbackFence decide from the row SELECT ... FOR UPDATE returned *)
-Definition after_select (prep : bool) (t : thread) (v : option status) : thread :=
+Definition after_select (drv prep : bool) (t : thread) (v : option status) : thread :=
+  let decided := if drv then PcBiz else PcCommit in   (* proxy-driver mode cannot skip the business *)
   match t_ph t, v with
   | Commit, Some Tried => set_pc t (skip prep (PcPrepUpd Committed))
-  | Commit, Some Committed => set_pc t PcCommit                     (* idempotent: no callback *)
+  | Commit, Some Committed => set_pc t decided                      (* idempotent: no callback *)
   | Commit, _ => fail t ERefused PcRollback                         (* no record / rollbacked / suspended *)
   | Rollback, None => set_pc t (skip prep (PcPrepIns Suspended))    (* empty rollback: suspend *)
   | Rollback, Some Tried => set_pc t (skip prep (PcPrepUpd Rollbacked))
   | Rollback, Some Committed => fail t ERefused PcRollback
-  | Rollback, Some _ => set_pc t PcCommit                           (* idempotent: no callback *)
+  | Rollback, Some _ => set_pc t decided                            (* idempotent: no callback *)
   | _, _ => fail t ERefused PcRollback
   end.
 
-Definition step (prep : bool) (tid : bool) (t : thread) (sh : shared) : thread * shared :=
+Definition commit_eff (t : thread) (sh : shared) : shared :=
+  mkS (s_row sh) (if t_weff t then s_effs sh ++ [t_ph t] else s_effs sh) (s_owner sh).
+Definition commit_row (t : thread) (sh : shared) : shared :=
+  mkS (match t_wrow t with Some s => Some s | None => s_row sh end) (s_effs sh) (s_owner sh).
+
+(* drv = the delivery goes through the seata-fence-mysql proxy driver (FenceConn.BeginTx runs the
+   fence in a SECOND transaction B, the business runs on the target transaction A, FenceTx commits A
+   then B) instead of calling WithFence with the business as callback *)
+Definition step (drv prep : bool) (tid : bool) (t : thread) (sh : shared) : thread * shared :=
   match t_pc t with
   | PcDone => (t, sh)
   | PcBegin =>
       let f := faulted t in let t1 := tick t OBegin in
       if f then (fail t1 EFault PcDone, sh)
+      else if drv then (set_pc t1 PcBeginB, sh)
+      else match t_ph t with
+           | Invalid => (fail t1 ERefused PcRollback, sh)
+           | ph => (set_pc t1 (skip prep (first_pc ph)), sh)
+           end
+  | PcBeginB =>
+      let f := faulted t in let t1 := tick t OBegin in
+      if f then (fail t1 EFault PcDone, sh)          (* the target transaction is leaked, it holds nothing *)
       else match t_ph t with
            | Invalid => (fail t1 ERefused PcRollback, sh)
            | ph => (set_pc t1 (skip prep (first_pc ph)), sh)
@@ -159,7 +177,7 @@ Definition step (prep : bool) (tid : bool) (t : thread) (sh : shared) : thread *
            match view t sh with
            | Some _ => (fail t1 EDup PcRollback, sh1)
            | None => (set_pc (set_wrow t1 s)
-                        (match t_ph t with Rollback => PcCommit | _ => PcBiz end), sh1)
+                        (match t_ph t with Rollback => if drv then PcBiz else PcCommit | _ => PcBiz end), sh1)
            end
   | PcPrepSel =>
       let f := faulted t in let t1 := tick t OPrepSel in
@@ -168,7 +186,7 @@ Definition step (prep : bool) (tid : bool) (t : thread) (sh : shared) : thread *
       let f := faulted t in let t1 := tick t OSel in
       if f then (fail t1 EFault PcRollback, sh)
       else let v := view t sh in
-           (after_select prep t1 v, match v with Some _ => lock tid sh | None => sh end)
+           (after_select drv prep t1 v, match v with Some _ => lock tid sh | None => sh end)
   | PcPrepUpd s =>
       let f := faulted t in let t1 := tick t OPrepUpd in
       if f then (fail t1 EFault PcRollback, sh) else (set_pc t1 (PcUpd s), sh)
@@ -185,9 +203,18 @@ Definition step (prep : bool) (tid : bool) (t : thread) (sh : shared) : thread *
       if f then (fail t1 EFault PcRollback, sh) else (set_pc (set_weff t1) PcCommit, sh)
   | PcCommit =>
       let f := faulted t in let t1 := tick t OCommit in
+      if drv then
+        if f then (fail t1 EFault PcDone, sh)                         (* B is never ended: its lock leaks *)
+        else (set_pc t1 PcCommitB, commit_eff t sh)
+      else
       if f then (fail t1 EFault PcDone, release tid sh)               (* failed COMMIT: nothing applied *)
       else (set_pc t1 PcDone, release tid (commit_tx t sh))
-  | PcRollback => (set_pc (note t ORollback) PcDone, release tid sh)
+  | PcCommitB =>
+      let f := faulted t in let t1 := tick t OCommit in
+      if f then (fail t1 EFault PcDone, release tid sh)
+      else (set_pc t1 PcDone, release tid (commit_row t sh))
+  | PcRollback =>
+      (set_pc (if drv then note (note t ORollback) ORollback else note t ORollback) PcDone, release tid sh)
   end.
 
 Definition done (t : thread) : bool := match t_pc t with PcDone => true | _ => false end.
@@ -196,13 +223,41 @@ Definition done (t : thread) : bool := match t_pc t with PcDone => true | _ => f
 Fixpoint run1 (fuel : nat) (t : thread) (sh : shared) : thread * shared :=
   match fuel with
   | O => (t, sh)
-  | S f => let '(t1, sh1) := step true false t sh in run1 f t1 sh1
+  | S f => let '(t1, sh1) := step false true false t sh in run1 f t1 sh1
   end.
 
 Definition seq_fuel : nat := 12.
 
 Definition deliver1 (row : option status) (ph : phase) (fault : option nat) : thread * shared :=
   run1 seq_fuel (init_thread true ph fault) (mkS row [] None).
+
+(* ---- delivery through the proxy driver ---------------------------------------- *)
+Fixpoint run1d (fuel : nat) (t : thread) (sh : shared) : thread * shared :=
+  match fuel with
+  | O => (t, sh)
+  | S f => let '(t1, sh1) := step true true false t sh in run1d f t1 sh1
+  end.
+
+Definition deliver_drv (row : option status) (ph : phase) (fault : option nat) : thread * shared :=
+  run1d 14 (init_thread true ph fault) (mkS row [] None).
+
+(* input predicates of the two known findings about the proxy-driver mode *)
+(* the fence decides the delivery without the business (duplicate phase two / empty rollback) *)
+Definition drv_decided (row : option status) (ph : phase) : bool :=
+  match ph, row with
+  | Commit, Some Committed => true
+  | Rollback, None | Rollback, Some Rollbacked | Rollback, Some Suspended => true
+  | _, _ => false
+  end.
+(* the injected failure hits one of the two COMMITs *)
+Definition drv_fault_at_commit (row : option status) (ph : phase) (fault : option nat) : bool :=
+  let '(t, _) := deliver_drv row ph fault in
+  match t_err t, t_trace t with
+  | EFault, OCommit :: _ => true
+  | _, _ => false
+  end.
+Definition drv_supported (row : option status) (ph : phase) (fault : option nat) : bool :=
+  negb (drv_decided row ph) && negb (drv_fault_at_commit row ph fault).
 
 (* ---- race of two deliveries of the same branch ---------------------------- *)
 Record rstate := mkR { r_t0 : thread; r_t1 : thread; r_sh : shared }.
@@ -218,7 +273,7 @@ Definition enabled (tid : bool) (t : thread) (sh : shared) : bool :=
 Definition rstep (b : bool) (r : rstate) : rstate :=
   let thr := fun tid : bool => if tid then r_t1 r else r_t0 r in
   let go := fun tid : bool =>
-    let '(t', sh') := step false tid (thr tid) (r_sh r) in
+    let '(t', sh') := step false false tid (thr tid) (r_sh r) in
     if tid then mkR (r_t0 r) t' sh' else mkR t' (r_t1 r) sh' in
   if enabled b (thr b) (r_sh r) then go b
   else if enabled (negb b) (thr (negb b)) (r_sh r) then go (negb b)
@@ -313,3 +368,37 @@ Definition legal2 (r r' : option status) (effs : list phase) : bool :=
 Definition try_of (c : cell) : N := fst (fst (c_cnt c)).
 Definition confirm_of (c : cell) : N := snd (fst (c_cnt c)).
 Definition cancel_of (c : cell) : N := snd (c_cnt c).
+
+(* ---- histories that also contain deliveries through the proxy driver -------------- *)
+Inductive dop :=
+| DApi (o : hop)
+| DDrv (k : N) (ph : phase) (fault : option nat).
+
+Definition dop_key (o : dop) : N := match o with DApi o => hop_key o | DDrv k _ _ => k end.
+
+Definition dop_result (o : dop) (row : option status) : option status * list phase :=
+  match o with
+  | DApi o => hop_result o row
+  | DDrv _ ph fault => let '(_, sh) := deliver_drv row ph fault in (s_row sh, s_effs sh)
+  end.
+
+Definition apply_dop (w : world) (o : dop) : world :=
+  let k := dop_key o in
+  let c := get w k in
+  let '(row', effs) := dop_result o (c_row c) in
+  set w k (mkC row' (add_effs (c_cnt c) effs)).
+
+Definition run_dhist (w : world) (h : list dop) : world := fold_left apply_dop h w.
+
+(* is the operation, at the moment it is delivered, outside the two known findings? *)
+Definition dop_supported (w : world) (o : dop) : bool :=
+  match o with
+  | DApi _ => true
+  | DDrv k ph fault => drv_supported (c_row (get w k)) ph fault
+  end.
+
+Fixpoint dhist_supported (w : world) (h : list dop) : bool :=
+  match h with
+  | [] => true
+  | o :: h' => dop_supported w o && dhist_supported (apply_dop w o) h'
+  end.
